@@ -25,6 +25,10 @@ FromJson(m) == [m EXCEPT !.auth = ToSet(@), !.acct = ToSet(@)]
 RECURSIVE MsgsFromJson(_)
 MsgsFromJson(ms) == IF ms = <<>> THEN <<>> ELSE <<FromJson(Head(ms))>> \o MsgsFromJson(Tail(ms))
 
+\* act.n seconds pass, one at a time, the node's threads running to quiescence after each (a long silence as one history step)
+RECURSIVE JumpN(_, _)
+JumpN(S, k) == IF k = 0 THEN S ELSE JumpN(Quiesce(EnvTick(S)), k - 1)
+
 Apply1(S, act) ==
   CASE act.a = "start"          -> EnvStart(S)
     [] act.a = "plan"           -> [S EXCEPT !.dialPlan = act.plan]
@@ -38,6 +42,7 @@ Apply1(S, act) ==
     [] act.a = "stall"          -> EnvStall(S, act.c)
     [] act.a = "connect_result" -> EnvConnectResult(S, act.c, act.err)
     [] act.a = "tick"           -> EnvTick(S)
+    [] act.a = "jump"           -> JumpN(S, act.n)
     [] act.a = "stop"           -> EnvStop(S, act.force, act.wait)
     [] act.a = "send"           -> SendRequest(S, act.k, act.app, act.realm, act.timeout, act.pick)
     [] act.a = "submit"         -> LET hs == {j \in 1..Len(S.held) : S.held[j].a = act.app /\ S.held[j].m.hbh = act.m.hbh /\ S.held[j].m.e2e = act.m.e2e
